@@ -57,6 +57,11 @@ structure Input where
                            -- else is done to the path: no registry aliasing (docker.io stays docker.io), no
                            -- case folding, no port stripping - a scope matches only its exact spelling
   world : List Store
+  sameKey : List (List CertId)  -- MUST NOT MATTER: groups of certificates that carry the same public key (and
+                           -- name) but are different certificates - a re-issued root, a cross-certificate for
+                           -- the root's key, a re-issued intermediate / leaf. Trust is by IDENTICAL
+                           -- certificate (`CertId` equality = equality of the DER bytes), never by key or
+                           -- name: `run` does not read this field.
   identityOk : Bool        -- verdict of the trusted-identity check that shares the authenticity result:
                            -- natively `true` (trustedIdentities is "*"); with an installed verification
                            -- plugin of capability TRUSTED_IDENTITY, the plugin's answer
@@ -66,6 +71,9 @@ structure Input where
   kind : String            -- annotation: "oci" (Verify) | "blob" (VerifyBlob; the blob document's
                            -- statements are selected by name: encoded as `scopes := [name]`, `repo := name`;
                            -- names are compared as exact strings - "Payments" / "payments" / "prod " differ)
+                           -- (an empty name selects the global blob statement: that statement carries the
+                           -- additional scope "" in this encoding; a name no statement carries selects
+                           -- nothing - in particular not the global statement)
                            -- | "load" (concurrency stage: a direct GetCertificates on the real store, recorded
                            -- as the verification of a chain made of exactly what that store must return)
   history : List String    -- MUST NOT MATTER: the verifications the SAME verifier instance (and the same
